@@ -196,6 +196,52 @@ func CheckMetafile(rc *RunCtx, rec *BuildRec, label string) *Violation {
 			}
 		}
 	}
+	// the import statements of the emitted code agree with the outputs' "imports": a
+	// relative import that resolves to a file of this build is listed as a non-external
+	// import of that file, and no emitted file is reported as external
+	if rec.Opts.Bundle {
+		for p, mo := range metaOut {
+			if !(strings.HasSuffix(p, ".js") || strings.HasSuffix(p, ".mjs")) {
+				continue
+			}
+			listed := map[string]bool{}
+			for _, im := range mo.Imports {
+				tgt := absOf(root, im.Path)
+				if im.External {
+					if _, emitted := outBytes[tgt]; emitted && (strings.HasPrefix(im.Path, "./") || strings.HasPrefix(im.Path, "../") || strings.HasPrefix(im.Path, "/") || !strings.Contains(im.Path, ":")) && rec.Opts.PublicPath == "" {
+						if _, isKey := metaOut[tgt]; isKey && strings.Contains(im.Path, "/") {
+							return viol("emitted-file-marked-external", "", "output %s lists import %q as external although the build emits that file", p, im.Path)
+						}
+					}
+					continue
+				}
+				listed[tgt] = true
+			}
+			c := outBytes[p]
+			if rec.Opts.LineLimit > 0 {
+				c = strings.ReplaceAll(c, "\\\n", "")
+			}
+			for _, re := range []*regexp.Regexp{reJSFrom, reJSCall} {
+				for _, m := range re.FindAllStringSubmatch(c, -1) {
+					ref := m[1]
+					if !strings.HasPrefix(ref, "./") && !strings.HasPrefix(ref, "../") {
+						continue
+					}
+					tgt := path.Clean(path.Dir(p) + "/" + ref)
+					if _, emitted := outBytes[tgt]; !emitted {
+						continue
+					}
+					if !(strings.HasSuffix(tgt, ".js") || strings.HasSuffix(tgt, ".mjs") || strings.HasSuffix(tgt, ".css")) {
+						continue
+					}
+					rc.Probe("output_import_crosschecked")
+					if !listed[tgt] {
+						return viol("output-import-not-listed", "", "the code of %s imports %q (= %s, emitted by this build) but the metafile does not list it as a non-external import of that output (listed: %v)", p, ref, tgt, mo.Imports)
+					}
+				}
+			}
+		}
+	}
 	// every configured entry point that is a module of the model appears as an input
 	if rec.Opts.Bundle {
 		for _, e := range rec.Opts.EntryPoints {
